@@ -143,36 +143,48 @@ def reassemble (store : Store) (f : Frame) (base idx cnt : Nat) : Store × Optio
       if slots.all (fun s => s ≠ []) then (store.erase base, some slots.flatten, none)
       else (store.set base slots, none, none)
 
-/-- `handleIncomingFrame` for one received frame.  `reasm` = options.IsReassemblyEnabled;
+/-- `handleIncomingFrame` after `spec.ReadPacket` produced an LpPacket `f` with a Fragment element.
+    `reasm` = options.IsReassemblyEnabled;
     `validL3 w` = "`spec.ReadPacket` accepts `w` as an Interest or Data" (C03/C04 territory). -/
+def handleLp (reasm : Bool) (validL3 : Bytes → Bool) (store : Store) (f : Frame) : Store × RxOut :=
+  if f.frag = [] then (store, .drop)                         -- IDLE
+  else
+    let finish (store : Store) (payload : Bytes) : Store × RxOut :=
+      if validL3 payload then (store, .deliver ⟨payload, f.token, f.mark⟩) else (store, .drop)
+    if reasm ∧ f.seq.isSome then
+      let idx := f.idx.getD 0
+      let cnt := f.cnt.getD 1
+      let base := (f.seq.getD 0 + two64 - idx % two64) % two64   -- uint64: *LP.Sequence - fragIndex
+      if idx = 0 ∧ cnt = 1 then finish store f.frag
+      else
+        match reassemble store f base idx cnt with
+        | (st', _, some bad) => (st', bad)
+        | (st', none, none) => (st', .drop)
+        | (st', some payload, none) => finish st' payload
+    else if f.cnt.isSome ∨ f.idx.isSome then (store, .drop)
+    else finish store f.frag
+
+/-- `handleIncomingFrame` for one received frame -/
 def handleFrame (reasm : Bool) (validL3 : Bytes → Bool) (store : Store) (frame : Bytes) : Store × RxOut :=
   match decFrame frame with
   | .error => (store, .drop)
   | .bare _ => if validL3 frame then (store, .deliver ⟨frame, [], none⟩) else (store, .drop)
-  | .lp f hasFrag =>
-    if !hasFrag ∨ f.frag = [] then (store, .drop)            -- IDLE
-    else
-      let finish (store : Store) (payload : Bytes) : Store × RxOut :=
-        if validL3 payload then (store, .deliver ⟨payload, f.token, f.mark⟩) else (store, .drop)
-      if reasm ∧ f.seq.isSome then
-        let idx := f.idx.getD 0
-        let cnt := f.cnt.getD 1
-        let base := (f.seq.getD 0 + two64 - idx) % two64
-        if idx = 0 ∧ cnt = 1 then finish store f.frag
-        else
-          match reassemble store f base idx cnt with
-          | (st', _, some bad) => (st', bad)
-          | (st', none, none) => (st', .drop)
-          | (st', some payload, none) => finish st' payload
-      else if f.cnt.isSome ∨ f.idx.isSome then (store, .drop)
-      else finish store f.frag
+  | .lp f hasFrag => if hasFrag then handleLp reasm validL3 store f else (store, .drop)
 
-/-- the receiver over a sequence of arriving frames: deliveries in order -/
+/-- the receiver over a sequence of arriving frames: one outcome per arrival, in order -/
 def rxRun (reasm : Bool) (validL3 : Bytes → Bool) : Store → List Bytes → Store × List RxOut
   | st, [] => (st, [])
   | st, fr :: rest =>
     let r := handleFrame reasm validL3 st fr
     let t := rxRun reasm validL3 r.1 rest
+    (t.1, r.2 :: t.2)
+
+/-- the same on already decoded LpPackets -/
+def rxRunF (reasm : Bool) (validL3 : Bytes → Bool) : Store → List Frame → Store × List RxOut
+  | st, [] => (st, [])
+  | st, f :: rest =>
+    let r := handleLp reasm validL3 st f
+    let t := rxRunF reasm validL3 r.1 rest
     (t.1, r.2 :: t.2)
 
 end Ndn.C10
